@@ -44,6 +44,7 @@ import (
 	"github.com/nuts-foundation/nuts-node/vdr/didsubject"
 	"github.com/nuts-foundation/nuts-node/vdr/resolver"
 	"go.uber.org/mock/gomock"
+	"gorm.io/gorm"
 )
 
 type wResp struct {
@@ -118,6 +119,7 @@ func (f *wRT) RoundTrip(r *http.Request) (*http.Response, error) {
 type wNode struct {
 	faulty bool
 	sqlDB  interface{ Close() error }
+	gdb    *gorm.DB
 	m     *Module
 	rt    *wRT
 	db    *didsubject.SqlDIDDocumentManager
@@ -178,6 +180,7 @@ func wNewNode(t *testing.T, op wOp) *wNode {
 		panic("configure: " + err.Error())
 	}
 	n.db = didsubject.NewDIDDocumentManager(eng.GetSQLDatabase())
+	n.gdb = eng.GetSQLDatabase()
 	if sqlDB, err := eng.GetSQLDatabase().DB(); err == nil {
 		n.sqlDB = sqlDB
 	}
@@ -188,7 +191,9 @@ func wNewNode(t *testing.T, op wOp) *wNode {
 func (n *wNode) wApplyHistory(id did.DID, hist []string) {
 	have := n.seen[id.String()]
 	for i := len(have); i < len(hist); i++ {
-		active := hist[i] == "active"
+		// a "+" suffix: the version was written by an instance whose clock is a few minutes ahead (updated_at in the future)
+		ahead := strings.HasSuffix(hist[i], "+")
+		active := strings.TrimSuffix(hist[i], "+") == "active"
 		if id.Method == "nuts" {
 			doc := did.Document{ID: id}
 			if hist[i] == "controlled" || hist[i] == "orphaned" { // no capabilityInvocation of its own: active only through an active controller
@@ -220,8 +225,15 @@ func (n *wNode) wApplyHistory(id did.DID, hist []string) {
 			if active {
 				vms = []orm.VerificationMethod{{ID: id.String() + "#k" + strconv.Itoa(i), KeyTypes: 31, Data: []byte("{}")}}
 			}
-			if _, err := n.db.CreateOrUpdate(orm.DID{ID: id.String(), Subject: "s-" + id.String()}, vms, nil); err != nil {
+			ver, err := n.db.CreateOrUpdate(orm.DID{ID: id.String(), Subject: "s-" + id.String()}, vms, nil)
+			if err != nil {
 				panic("sql create: " + err.Error())
+			}
+			if ahead {
+				ts := time.Now().Unix() + 120 + int64(i)*7
+				if err := n.gdb.Model(&orm.DidDocument{}).Where("id = ?", ver.ID).Update("updated_at", ts).Error; err != nil {
+					panic("sql skew: " + err.Error())
+				}
 			}
 		}
 	}
@@ -421,6 +433,10 @@ func wGenerate(seed int64, thorough bool) []wOp {
 				}
 				op.M, op.ID, op.Tag = whx("web"), whx(id), "web"
 				op.Hist = hists[r.Intn(len(hists))]
+				if r.Intn(4) == 0 {
+					op.Hist = [][]string{{"active+"}, {"deactivated+"}, {"active", "deactivated+"}, {"active+", "deactivated+"}, {"active", "active+"}, {"deactivated", "active+"}, {"active+", "deactivated"}}[r.Intn(7)]
+					op.Tag = "web-clock-skew"
+				}
 				didStr := "did:web:" + id
 				var l []wResp
 				for r.Intn(4) == 0 && len(l) < 3 {
@@ -550,7 +566,7 @@ func TestVerifC18(t *testing.T) {
 		// for the oracle: what a reader of the property expects the node's own store to say about this DID
 		op.Local = "absent"
 		if len(op.Hist) > 0 {
-			op.Local = op.Hist[len(op.Hist)-1]
+			op.Local = strings.TrimSuffix(op.Hist[len(op.Hist)-1], "+")
 			if op.Local == "controlled" {
 				op.Local = "active"
 			}
